@@ -142,6 +142,8 @@ class World(object):
             fb = spec['fb']
             spec.clear(); spec.update(fb)
             return self.mat(actor, spec)
+        if t == 'slice':
+            return slice(spec['v'][0], spec['v'][1])
         if t == 'enc':       # a value given in codec encoding (snapshots of objects)
             return self.from_enc(actor, spec['v'])
         if t == 'matrixraw':
